@@ -64,6 +64,9 @@ func isASCIILower(s string) bool {
 
 const ace = "xn--"
 
+// foldDots maps the full stops that UTS 46 maps to '.' (mapping profiles split labels there).
+var foldDots = strings.NewReplacer("\u3002", ".", "\uff0e", ".", "\uff61", ".").Replace
+
 // asciiOnlyALabel: "xn--"+p with decode(p) = u, nil and u all ASCII (possibly empty).
 func asciiOnlyALabel(l string) bool {
 	if !strings.HasPrefix(l, ace) {
@@ -116,7 +119,7 @@ func exec(ops []string, o *vu.Out) {
 		// (1) A processed "xn--" label whose payload decodes to ASCII only must be rejected.
 		procLabels := x
 		if pr.maps {
-			procLabels = lowerASCII(x)
+			procLabels = foldDots(lowerASCII(x))
 		}
 		if anyLabel(procLabels, asciiOnlyALabel) {
 			o.Stat("region:ascii-only-alabel")
@@ -135,7 +138,7 @@ func exec(ops []string, o *vu.Out) {
 			}
 		}
 		// the monitor (and the remaining oracles) leave the known deviation region alone
-		if anyLabel(lowerASCII(x), asciiOnlyALabel) || anyLabel(lowerASCII(u), asciiOnlyALabel) {
+		if anyLabel(foldDots(lowerASCII(x)), asciiOnlyALabel) || anyLabel(foldDots(lowerASCII(u)), asciiOnlyALabel) {
 			continue
 		}
 		if isASCIILower(x) {
